@@ -1555,6 +1555,14 @@ impl<T: Storage> Raft<T> {
             return;
         }
 
+        if !self.promotable {
+            warn!(
+                self.logger,
+                "ignoring MsgHup because the node is not a voter of its configuration and can not campaign";
+            );
+            return;
+        }
+
         // Scan all unapplied committed entries to find a config change.
         // Paginate the scan, to avoid a potentially unlimited memory spike.
         //
